@@ -7,6 +7,7 @@
 //!   generate(&mut Rng, tier) -> Vec<Value>      inputs as JSON (so they replay exactly)
 //!   execute(&Value) -> String                    runs the implementation, returns a Gallina case
 //! With `--inputs FILE` (JSON lines) the generator is skipped: replay / corpus.
+mod c03;
 mod c15;
 mod dump;
 mod gal;
@@ -34,14 +35,15 @@ pub struct PropModule {
 fn module(prop: &str) -> PropModule {
     match prop {
         "C15" => c15::module(),
+        "C03" => c03::module(),
         "C01" => PropModule { coq_module: "Check_Norm", runner: "Check_Norm.run_C01", generate: |r, t| libgen::generate_mixed(r, t, 320), execute: lib_stage::execute, label: libgen::label },
         "C02" => PropModule { coq_module: "Check_Norm", runner: "Check_Norm.run_C02", generate: |r, t| libgen::generate_mixed(r, t, 320), execute: lib_stage::execute, label: libgen::label },
         "C06" => PropModule { coq_module: "Check_Norm", runner: "Check_Norm.run_C06", generate: |r, t| libgen::generate_mixed(r, t, 320), execute: lib_stage::execute, label: libgen::label },
         "C07" => PropModule { coq_module: "Check_Norm", runner: "Check_Norm.run_C07", generate: |r, t| libgen::generate_mixed(r, t, 320), execute: lib_stage::execute, label: libgen::label },
         "NORM" => PropModule { coq_module: "Check_Norm", runner: "Check_Norm.run_norm_explore", generate: |r, t| libgen::generate_mixed(r, t, 400), execute: lib_stage::execute, label: libgen::label },
-        "HIST" => PropModule { coq_module: "Check_Hist", runner: "Check_Hist.run_HIST", generate: |r, t| hist_stage::generate(r, t, 160), execute: hist_stage::execute, label: hist_stage::label },
-        "C20" => PropModule { coq_module: "Check_Hist", runner: "Check_Hist.run_C20", generate: |r, t| hist_stage::generate(r, t, 160), execute: hist_stage::execute, label: hist_stage::label },
-        "C04" => PropModule { coq_module: "Check_Hist", runner: "Check_Hist.run_C04", generate: |r, t| hist_stage::generate(r, t, 160), execute: hist_stage::execute, label: hist_stage::label },
+        "HIST" => PropModule { coq_module: "Check_Hist", runner: "Check_Hist.run_HIST", generate: |r, t| hist_stage::generate(r, t, 120), execute: hist_stage::execute, label: hist_stage::label },
+        "C20" => PropModule { coq_module: "Check_Hist", runner: "Check_Hist.run_C20", generate: |r, t| hist_stage::generate(r, t, 120), execute: hist_stage::execute, label: hist_stage::label },
+        "C04" => PropModule { coq_module: "Check_Hist", runner: "Check_Hist.run_C04", generate: |r, t| hist_stage::generate(r, t, 120), execute: hist_stage::execute, label: hist_stage::label },
         "LIB" => PropModule { coq_module: "Check_Lib", runner: "Check_Lib.run_corr", generate: |r, t| libgen::generate_mixed(r, t, 200), execute: lib_stage::execute, label: libgen::label },
         _ => {
             eprintln!("unknown property {}", prop);
@@ -57,6 +59,10 @@ fn main() {
         std::process::exit(2);
     }
     let prop = args[1].clone();
+    if prop == "C03-child" {
+        c03::child_main(&args[2]);
+        return;
+    }
     let mut seed: u64 = 1;
     let mut thorough = false;
     let mut out = PathBuf::from("_work");
@@ -76,6 +82,7 @@ fn main() {
     }
     let m = module(&prop);
     fs::create_dir_all(&out).unwrap();
+    std::env::set_var("VERIF_WORK", &out);
 
     // corpus first (minimised failures and finding witnesses), then generated inputs
     let mut inputs: Vec<Value> = vec![];
@@ -109,8 +116,26 @@ fn main() {
     let mut cases = Vec::with_capacity(inputs.len());
     let mut dist: HashMap<String, u64> = HashMap::new();
     let mut inputs_out = fs::File::create(out.join("inputs.jsonl")).unwrap();
+    // cases that run in child processes are executed in parallel (order of results is kept)
+    let parallel = matches!(prop.as_str(), "C03");
+    if parallel {
+        let n_threads = 14usize;
+        let results: Vec<std::sync::Mutex<Option<String>>> = inputs.iter().map(|_| std::sync::Mutex::new(None)).collect();
+        let next = std::sync::atomic::AtomicUsize::new(0);
+        std::thread::scope(|sc| {
+            for _ in 0..n_threads {
+                sc.spawn(|| loop {
+                    let i = next.fetch_add(1, std::sync::atomic::Ordering::SeqCst);
+                    if i >= inputs.len() { break; }
+                    let r = (m.execute)(&inputs[i]);
+                    *results[i].lock().unwrap() = Some(r);
+                });
+            }
+        });
+        for r in results { cases.push(r.into_inner().unwrap().unwrap()); }
+    }
     for inp in &inputs {
-        cases.push((m.execute)(inp));
+        if !parallel { cases.push((m.execute)(inp)); }
         *dist.entry((m.label)(inp)).or_insert(0) += 1;
         writeln!(inputs_out, "{}", inp).unwrap();
     }
